@@ -7,6 +7,6 @@ rm -rf "$D"; mkdir -p "$D"
 rsync -a --exclude .git --exclude __pycache__ /repo/ "$D"/
 if [ -f "$CHG" ]; then (cd "$D" && patch -p1 -s < "$CHG") || { echo "patch failed"; rm -rf "$D"; exit 3; }
 else sed -i "$CHG" "$D/$FILE"; (cd "$D" && diff -u "/repo/$FILE" "$FILE" | head -20); fi
-shift 4 2>/dev/null
+if [ $# -ge 4 ]; then shift 4; else shift $#; fi
 VERIF_REPO="$D" /verif/check "$ID" "$@" 2>&1 | tail -${MUT_TAIL:-6}
 rm -rf "$D"
